@@ -160,7 +160,7 @@ func c12UnpackFaults(env *fw.Env, idx int) fw.Result {
 			}
 		}
 	}
-	res := fw.Result{Hash: fw.HashString("ur" + string(data)), NonTrivial: true, Class: "unpack-reader-faults", Case: map[string]interface{}{"archive": desc, "stream_bytes": len(data), "faults": "read error and clean EOF at every offset 0..len"}}
+	res := fw.Result{Hash: fw.HashString("ur" + string(data)), NonTrivial: true, Class: "unpack-reader-faults", Case: map[string]interface{}{"archive": desc, "stream_bytes": len(data), "faults": "read error, clean EOF, and an error wrapping io.EOF at every offset 0..len"}}
 	dst := filepath.Join(env.Scratch, "c12", "dst")
 	if err := freshDir(dst); err != nil {
 		return fw.Result{Verdict: fw.Inconclusive, Msg: err.Error()}
@@ -175,12 +175,13 @@ func c12UnpackFaults(env *fw.Env, idx int) fw.Result {
 	}
 	okEarly := 0
 	for k := 0; k <= len(data); k++ {
-		for _, eof := range []bool{false, true} {
+		for mode := 0; mode < 3; mode++ {
+			eof := mode == 1
 			if err := freshDir(dst); err != nil {
 				return fw.Result{Verdict: fw.Inconclusive, Msg: err.Error()}
 			}
 			var uerr error
-			fr := &failingReader{r: bytes.NewReader(data), left: k, eof: eof}
+			fr := &failingReader{r: bytes.NewReader(data), left: k, eof: eof, wrapEOF: mode == 2}
 			if pn, pv := fw.Try(func() { uerr = slug.Unpack(fr, dst) }); pn {
 				res.Verdict, res.Finding, res.Msg = fw.Violated, "unpack-panic-on-read-fault", fmt.Sprintf("Unpack panicked with a reader failing at offset %d (eof=%v): %s", k, eof, pv)
 				return res
@@ -198,12 +199,12 @@ func c12UnpackFaults(env *fw.Env, idx int) fw.Result {
 			}
 			if d := treeEqual(full, got, implicit); d != "" {
 				res.Verdict, res.Finding = fw.Violated, "unpack-read-fault-swallowed"
-				res.Msg = fmt.Sprintf("reader %s at offset %d of %d, Unpack returned success, but the destination is not the whole archive: %s", map[bool]string{true: "ended (clean EOF)", false: "failed"}[eof], k, len(data), d)
+				res.Msg = fmt.Sprintf("reader %s at offset %d of %d, Unpack returned success, but the destination is not the whole archive: %s", []string{"failed", "ended (clean EOF)", "failed with an error wrapping io.EOF"}[mode], k, len(data), d)
 				return res
 			}
 		}
 	}
-	res.Obs = map[string]int64{"unpack_read_fault_positions": int64(2 * (len(data) + 1)), "success_before_end_with_complete_tree": int64(okEarly), "streams_fully_enumerated": 1}
+	res.Obs = map[string]int64{"unpack_read_fault_positions": int64(3 * (len(data) + 1)), "success_before_end_with_complete_tree": int64(okEarly), "streams_fully_enumerated": 1}
 	return res
 }
 
@@ -496,6 +497,48 @@ func c12Builder(env *fw.Env, idx int, pairs bool) fw.Result {
 			}
 			if subj.Start.Line != 1 || subj.End.Byte != 6 {
 				return viol("diagnostic-source-lost", "fault %v: subject range positions changed: %+v", f, *subj)
+			}
+			if f.Mode == "error-diag" {
+				// the error diagnostic also carries a context range in another file
+				cx := hit.Source().Context
+				if cx == nil {
+					return viol("diagnostic-source-lost", "fault %v: the diagnostic's context range is gone", f)
+				}
+				csrc, err := sourceaddrs.ParseRemoteSource(cx.Filename)
+				if err != nil || csrc.Package() != fsrc.Package() || !strings.HasSuffix(csrc.SubPath(), "ctx.tf") {
+					return viol("diagnostic-filename-not-rewritten", "fault %v: context file name %q is not the source address of ctx.tf inside the analysed package (subject is %q)", f, cx.Filename, subj.Filename)
+				}
+				if cx.Start.Line != 7 || cx.End.Byte != 12 {
+					return viol("diagnostic-source-lost", "fault %v: context range positions changed: %+v", f, *cx)
+				}
+			}
+		}
+		// the context-only warning that accompanies every injected warning
+		for _, f := range fc.faults {
+			if f.Mode != "warning-diag" {
+				continue
+			}
+			for k, o := range be.faulted {
+				if o != f.At || be.faultedAdd[k] >= len(br.Adds) {
+					continue
+				}
+				found := false
+				for _, d := range br.Adds[be.faultedAdd[k]].Diags {
+					if d.Description().Summary == fmt.Sprintf("context-only warning #%d", f.At) {
+						found = true
+						cx := d.Source().Context
+						if cx == nil {
+							return viol("diagnostic-source-lost", "fault %v: the context range of a context-only diagnostic is gone", f)
+						}
+						csrc, err := sourceaddrs.ParseRemoteSource(cx.Filename)
+						if err != nil || !strings.HasSuffix(csrc.SubPath(), "only-ctx.tf") {
+							return viol("diagnostic-filename-not-rewritten", "fault %v: the context file name %q of a diagnostic without subject range was not rewritten into a source address", f, cx.Filename)
+						}
+					}
+				}
+				if !found {
+					return viol("diagnostic-lost", "fault %v: the context-only warning is missing from the Add call's diagnostics", f)
+				}
 			}
 		}
 		if warningOnly {
